@@ -25,6 +25,16 @@ JAR = "/opt/veriftools/tla/tla2tools.jar"
 DEPS = "/opt/veriftools/tla/CommunityModules-deps.jar"
 
 
+def _default_workers():
+    f = VERIF / ".tlc_workers"          # untracked, optional local override
+    if f.exists():
+        try:
+            return max(1, int(f.read_text().strip()))
+        except ValueError:
+            pass
+    return os.cpu_count() or 4
+
+
 class TLCFailure(RuntimeError):
     """TLC could not do its job (parse error, evaluation error, overflow guard, timeout)."""
 
@@ -100,7 +110,8 @@ def run_tlc(workdir, module, cfg, *, files=None, env=None, workers=None, simulat
     if meta.exists():
         shutil.rmtree(meta)
     if workers is None:
-        workers = os.cpu_count() or 4
+        # default: all cores; VERIF_TLC_WORKERS lowers it (used while many checks are developed in parallel)
+        workers = int(os.environ.get("VERIF_TLC_WORKERS", "0") or 0) or _default_workers()
     cmd = ["java", "-XX:+UseParallelGC", f"-Xmx{heap}", "-cp", f"{JAR}:{DEPS}", "tlc2.TLC",
            "-workers", str(workers), "-metadir", str(meta), "-noGenerateSpecTE"]
     if fp is not None:
